@@ -25,6 +25,13 @@ def select(t, c):
         return None
     if step >= 2 and prop == "C02":
         base = name.split(":")[0]
+        if base.startswith("derived-") or base.startswith("held-object-has-no-value"):
+            import re
+            h = o["held"][detail - 1]["name"]
+            m = re.match(r"post(\d*)_", h)
+            if m and int(m.group(1) or 1) == step:
+                return ("C13|object-built-after-the-latest-solve|%s" % base,
+                        "after solve %d an object built AFTER that solve ('%s') does not evaluate to the latest solution (%s)" % (step, h, name))
         if base.startswith("derived-") or base in ("constraint-value-differs-from-its-expression",
                                                    "lmi-value-differs-from-its-entries"):
             return ("C13|stale-value-after-resolve|%s" % base,
